@@ -103,6 +103,20 @@ def judge(t):
                 V('C19.2-flavour-order', 'borrower %d supplied %s, yet borrower %d was consulted too' % (c.comp, m, cl[i + 1].comp), what='not-first')
         if not cl[-1].ok and len(cl) < nb:
             V('C19.2-flavour-order', 'borrowing of %s stopped after borrower %d without success (%d borrowers)' % (m, cl[-1].comp, nb), what='gave-up-early')
+    # ground truth from the scenario: a borrower that holds a healthy copy of the module in the requested flavour supplies
+    # it when it is asked - whatever happened to other modules at that borrower before
+    if not scn.get('realfs'):
+        for c in bcalls:
+            if not isinstance(c.comp, int) or c.comp >= nb or c.ok or getattr(c, 'injected', False):
+                continue
+            b_ = scn['borrowers'][c.comp]
+            if b_.get('holds', {}).get(c.mib) != 'ok' or bool(b_.get('genTexts')) != want_texts:
+                continue
+            if any(rc.comp == c.comp and rc.mib == c.mib and (getattr(rc, 'injected', False) or not rc.ok) for rc in rcalls):
+                continue        # the look-up itself was disturbed
+            V('C19.2-flavour-order', 'borrower %d holds a copy of %s in the requested flavour, was asked for it and answered %s' % (c.comp, c.mib, type(c.exc).__name__),
+              what='holder-did-not-supply', earlier_errors=sorted(set(x.mib for x in rcalls if x.comp == c.comp and not x.ok and x.seq < c.seq
+                                                                      and type(x.exc).__name__ not in ('PySmiReaderFileNotFoundError',)))[:3])
     # 5. who is eligible
     for m in sorted(failed_before):
         eligible = (not noDeps) or (m in requested)
@@ -349,10 +363,22 @@ def gen_layer2(rng, tier):
                 tree[fn] = '\n\n  ' + tree[fn] + ' \t\n\n'
             elif r_ < 0.75:
                 tree[fn] = tree[fn] + '\x0c\x00\u2028 end'
-    return {'layer': 2, 'name': name, 'tree': tree, 'kind': kind, 'cap': cap, 'genTexts': rng.random() < 0.5, 'req_texts': rng.random() < 0.5,
+    bigpad = None
+    if cap is None and rng.random() < 0.08:
+        # pre-compiled modules of some hundred kilobytes with multi-byte characters all the way through (the with-texts
+        # flavour of a large MIB): however the reader cuts its input into pieces, the copy is the file
+        bigpad = rng.choice([14000, 27000, 40000, 55000])
+    return {'layer': 2, 'name': name, 'tree': tree, 'kind': kind, 'cap': cap, 'bigpad': bigpad, 'genTexts': rng.random() < 0.5, 'req_texts': rng.random() < 0.5,
             'late_flavour': rng.random() < 0.35, 'symlink_sub': rng.random() < 0.2,
             'lowcase': rng.random() < 0.5, 'listing_seed': rng.randrange(1 << 30),
             'rate': {'p': 0.05, 'seed': rng.randrange(1 << 30), 'sites': ['os.stat', 'open', 'file.read', 'os.listdir']} if rng.random() < 0.3 else None}
+
+
+def _l2_content(scn, fn):
+    c = scn['tree'].get(fn)
+    if c is not None and scn.get('bigpad'):
+        c = c + '\n' + '\u00e9\u6f22' * int(scn['bigpad']) + '\n'
+    return c
 
 
 def run_layer2(scn):
@@ -376,7 +402,7 @@ def run_layer2(scn):
                 os.symlink(fd_, os.path.join(d, 'current'))
             for fn, content in sorted(scn['tree'].items()):
                 with open(os.path.join(fd_, fn), 'w', encoding='utf-8', newline='') as f:
-                    f.write(content)
+                    f.write(_l2_content(scn, fn))
         w = core.World(root=root, rate=scn.get('rate'), listing_seed=scn.get('listing_seed'))
         reader = FileReader(d)
         if scn['kind'] == 'py':
@@ -417,8 +443,8 @@ def run_layer2(scn):
             stem = fn[:-len(exts[0])] if exts and fn.endswith(exts[0]) else fn
             if stem.lower() != scn['name'].lower() and stem.lower() not in (scn['name'].lower() + '-mib', scn['name'].lower().replace('-mib', '')):
                 V('C19.6-extensions', 'borrower returned unrelated file %s for %s' % (fn, scn['name']), what='unrelated', file=fn)
-            if scn['tree'].get(fn) != res[2]:
-                V('C19.3-verbatim', 'borrowed text differs from the file content', what='content')
+            if _l2_content(scn, fn) != res[2]:
+                V('C19.3-verbatim', 'borrowed text differs from the file content', what='content', big=bool(scn.get('bigpad')))
         elif res[0] == 'pkgerror' and not w.fired and scn['genTexts'] == scn['req_texts'] and not scn.get('cap'):
             # must find it when an exact-name file with the right extension exists
             if exts and (scn['name'] + exts[0]) in scn['tree']:
